@@ -230,6 +230,13 @@ def unhashable_ops(tree, node):
         ("node.up(0)", lambda: node.up(0)),
         ("node.up(99)", lambda: node.up(99)),
     ]
+    first = next(iter(tree))
+    kw_ = {"kind": "k"} if hasattr(node, "kind") else {}
+    ops += [
+        # an explicit node_id that is already in use (AssertionError of the registry)
+        ("add(node_id=<in use>)", lambda: node.add("N-dup-nid", node_id=first.node_id, **kw_)),
+        ("add(node_id=<own>)", lambda: node.add("N-dup-nid2", node_id=node.node_id, before=True, **kw_)),
+    ]
     if hasattr(node, "kind"):
         from nutree import Tree as _PlainTree
 
